@@ -151,6 +151,18 @@ def feed(m, screen, via):
                     m.add_observations(sub)
             elif via == 0:
                 m.add_observations(screen)
+            elif via == 3:
+                # the observed experiments handed over in two or three consecutive pieces (as when plates arrive one by one):
+                # same rows, same order, so the training state must be the one of the single call
+                sub = screen.subset_observed()
+                if sub is not None:
+                    idx = np.where(np.asarray(sub.selection_vector))[0]
+                    k = 3 if len(idx) >= 5 else 2
+                    for part in np.array_split(idx, k):
+                        if len(part):
+                            sel = np.zeros(len(np.asarray(sub.selection_vector)), dtype=bool)
+                            sel[part] = True
+                            m.add_observations(screen.subset(sel))
             else:
                 m._add_observations(screen)
 
@@ -677,6 +689,14 @@ def run(desc):
         # 3. trained on exactly the documented rows, each once, transformed as documented
         if pred is None:
             pred = check_training(model, sa, ia)
+        # 3b. ... also when the same observed experiments arrive in several add_observations calls (SparseDrugCombo: the
+        # interaction model recomputes its single-effect table per call, so only its one-call behaviour is documented)
+        if pred is None and model == SDC and not isinstance(ia, ImplError) and n_obs >= 2:
+            ic = train_result(model, sa, 3)
+            feats.append("fed-in-pieces")
+            if train_bits(model, ic) != train_bits(model, ia):
+                pred = "%s-piecewise-training-differs: the observed experiments handed over in consecutive pieces give another training state than in one call (%s)" % (
+                    model, train_bits(model, ic)[:80])
         feats += repl_features(sd) + (["trivial"] if n_masked == 0 or n_obs == 0 else [])
 
         def cmpf(m, i):
